@@ -105,37 +105,58 @@ func (s *Schema) RemoveRel(typ string, rel string) {
 //
 // The types must already exist in the schema.
 func (s *Schema) AddTwoWayRel(rel Rel) error {
-	rel1 := rel.Normalize()
+	rel1 := rel
 	rel2 := rel.Invert()
-	found1 := false
-	found2 := false
+
+	var typ1, typ2 *Type
 
 	for i := range s.Types {
 		if s.Types[i].Name == rel1.FromType {
-			found1 = true
+			typ1 = &s.Types[i]
+		}
 
-			err := s.Types[i].AddRel(rel1)
-			if err != nil {
-				return err
-			}
-		} else if s.Types[i].Name == rel2.FromType {
-			found2 = true
-
-			err := s.Types[i].AddRel(rel2)
-			if err != nil {
-				return err
-			}
+		if s.Types[i].Name == rel2.FromType {
+			typ2 = &s.Types[i]
 		}
 	}
 
-	if found1 && found2 {
-		return nil
+	// Both relationships are checked before anything is added, so
+	// that the schema is left untouched if an error is returned.
+	if typ1 != nil {
+		if err := typ1.checkRel(rel1); err != nil {
+			return err
+		}
 	}
 
-	return fmt.Errorf(
-		"jsonapi: types %q and %q must exist",
-		rel1.FromType, rel2.FromType,
-	)
+	if typ2 != nil {
+		if err := typ2.checkRel(rel2); err != nil {
+			return err
+		}
+	}
+
+	if typ1 == nil || typ2 == nil {
+		return fmt.Errorf(
+			"jsonapi: types %q and %q must exist",
+			rel1.FromType, rel2.FromType,
+		)
+	}
+
+	if typ1 == typ2 && rel1.FromName == rel2.FromName {
+		// The relationship is its own inverse.
+		if rel1 != rel2 {
+			return fmt.Errorf(
+				"jsonapi: relationship name %q is already used",
+				rel2.FromName,
+			)
+		}
+
+		return typ1.AddRel(rel1)
+	}
+
+	_ = typ1.AddRel(rel1)
+	_ = typ2.AddRel(rel2)
+
+	return nil
 }
 
 // Rels returns all the relationships from the schema's types. For two-way
